@@ -236,3 +236,28 @@ func (s *Server) ZZCounters() (int64, int64) {
 }
 
 func (s *Server) ZZModeIs(m types.Mode) bool { return s.r != nil && s.r.mode == m }
+
+// ZZFacts: what the open replica reports about itself, plus what a reopen of the
+// directory would read from volume.meta (disk* fields).
+type ZZFacts struct {
+	Chain                    []string
+	Checkpoint, DiskCheckpoint string
+	Rebuilding, DiskRebuilding bool
+	Mode                     types.Mode
+	Size, DiskSize           int64
+	DiskHead, DiskParent     string
+}
+
+func (s *Server) ZZFacts(fs *zzfs.FS) ZZFacts {
+	var f ZZFacts
+	if s.r == nil {
+		return f
+	}
+	f.Chain, _ = s.r.Chain()
+	f.Checkpoint, f.Rebuilding, f.Mode, f.Size = s.r.info.Checkpoint, s.r.info.Rebuilding, s.r.mode, s.r.info.Size
+	fs.Revive()
+	if info, err := ReadInfo(zzDir); err == nil {
+		f.DiskCheckpoint, f.DiskRebuilding, f.DiskSize, f.DiskHead, f.DiskParent = info.Checkpoint, info.Rebuilding, info.Size, info.Head, info.Parent
+	}
+	return f
+}
